@@ -14,7 +14,7 @@ RULE = ("instruction level: every operator tree of depth 1 (3 operators x all ch
         "items) and depth 2 (3 operators x all ordered pairs over base items + depth-1 binary trees [quick: 3 base items]) "
         "each alone and (depth 1, and depth 2 in thorough) in the context 'ret, T, ret' / 'T, ret'; operand level: every "
         "tree of depth 1..2 over 3 operand names placed as only operand item, before and after a plain operand item; "
-        "$deref level: every $or of 2..3 alternatives in each deref field; x EVERY listing up to the bound over the "
+        "$deref level: every $or of 2..3 alternatives in each deref field; wide/deep family: $or of 8/16/25 alternatives with the matching one first/middle/last, $and_any_order of 4 and 5 children (with duplicates) on every listing of length 4 / 5, nesting chains of depth 3..6; x EVERY listing up to the bound over the "
         "family's near-miss alphabet. Oracle: reference matcher (union / sequence / permutations with each child used "
         "once): verdict, spans genuine and record aligned. Non-trivial = reference finds the rule or its first item "
         "matches somewhere.")
@@ -96,8 +96,37 @@ def deref_rules(tier):
     return rules
 
 
+def wide_deep_rules(tier):
+    """beyond depth 2 / 3 children: wide alternations, 4- and 5-child $and_any_order, nesting chains of depth 3..5"""
+    rules = []
+    W = ("verdict", "aligned", "genuine")
+    junk = [f"zz{i}" for i in range(25)]
+    for k in (8, 16, 25):
+        for pos in (0, k // 2, k - 1):
+            alts = list(junk[:k])
+            alts[pos] = "push"
+            rules.append(e1.RuleCase("wide/or", ["mov", {"$or": alts}, "ret"], "wd", want=W))
+            rules.append(e1.RuleCase("wide/or_operand", [{"mov": [{"$or": [a if a != "push" else "rbx" for a in alts]}, "rax"]}], "wd", want=("verdict",)))
+    four = ["mov", "push", "ret", {"mov": ["rbx"]}]
+    rules.append(e1.RuleCase("wide/aao4", [{"$and_any_order": four}], "wd4", want=W))
+    rules.append(e1.RuleCase("wide/aao4dup", [{"$and_any_order": ["mov", "push", "push", "ret"]}], "wd4", want=W))
+    rules.append(e1.RuleCase("wide/aao5", [{"$and_any_order": ["mov", "push", "ret", "push", "mov"]}], "wd5", want=("verdict",)))
+    # nesting chains
+    inner = {"$or": ["push", "ret"]}
+    chains = [inner]
+    for op in ("$and", "$and_any_order", "$or", "$and", "$and_any_order"):
+        prev = chains[-1]
+        chains.append({op: ["mov", prev] if op != "$or" else [prev, {"$and": ["ret", "ret"]}]})
+    for ch in chains[2:]:
+        rules.append(e1.RuleCase("deep", [ch], "wd", want=W))
+        rules.append(e1.RuleCase("deep", ["ret", ch], "wd", want=W))
+    aa = {"$and_any_order": ["mov", {"$and_any_order": ["push", {"$and_any_order": ["ret", "mov"]}]}]}
+    rules.append(e1.RuleCase("deep/aao3", [aa], "wd4", want=W))
+    return rules
+
+
 def all_rules(tier):
-    return instr_rules(tier) + operand_rules(tier) + deref_rules(tier)
+    return instr_rules(tier) + operand_rules(tier) + deref_rules(tier) + wide_deep_rules(tier)
 
 
 def shards(tier):
@@ -106,7 +135,8 @@ def shards(tier):
 
 def build_lsets(h, tier):
     return {"instr": e1.ListingSet(h, ALPHA_I, 4), "oper": e1.ListingSet(h, ALPHA_O, 2),
-            "deref": e1.ListingSet(h, ALPHA_D, 1)}
+            "deref": e1.ListingSet(h, ALPHA_D, 1), "wd": e1.ListingSet(h, ALPHA_I, 5 if tier == "quick" else 6),
+            "wd4": e1.ListingSet(h, ALPHA_I, 4, minlen=4), "wd5": e1.ListingSet(h, ALPHA_I[:1] + ALPHA_I[2:], 5, minlen=5)}
 
 
 def run_shard(shard, tier, h, res, known):
